@@ -954,9 +954,14 @@ class HistogramBase(abc.ABC):
             else:
                 adapted_self = self + 0 * other
                 adapted_other = 0 * self + other
-                self.frequencies = adapted_self.frequencies - adapted_other.frequencies
-                self.errors2 = adapted_self.errors2 + adapted_other.errors2
-                self._missed -= other._missed
+                self._coerce_dtype(other.dtype)
+                self.frequencies = (
+                    adapted_self.frequencies - adapted_other.frequencies
+                ).astype(self.dtype)
+                self.errors2 = (adapted_self.errors2 + adapted_other.errors2).astype(
+                    self.dtype
+                )
+                self._missed = (self._missed - other._missed).astype(self.dtype)
             self._stats = INVALID_STATISTICS
             return self
         array = np.asarray(other)
